@@ -3,6 +3,7 @@
 from __future__ import annotations
 
 from difflib import get_close_matches
+from collections.abc import Collection
 from typing import TYPE_CHECKING, Any, Literal
 
 from hypergraph.exceptions import IncompatibleRunnerError, MissingInputError
@@ -578,16 +579,16 @@ def resolve_runtime_selected(
         return None  # all outputs — no narrowing
     if isinstance(select, str):
         sel: tuple[str, ...] = (select,)
+    elif isinstance(select, Collection):
+        # Any other collection of names (tuple, set, frozenset, dict, dict view)
+        # is used like a list of names by the output filter, so it is validated
+        # like one. (Not one-shot iterators: reading them here would leave
+        # nothing for the output filter.)
+        sel = tuple(select)
     else:
-        # Any other iterable of names (tuple, set, frozenset, dict keys, ...) is
-        # used like a list of names by the output filter, so it is validated
-        # like one.
-        try:
-            sel = tuple(select)
-        except TypeError:
-            # Not iterable at all — treat as "no narrowing" rather than raising,
-            # since run() signature already constrains the type at the public API level.
-            return None
+        # Unexpected type — treat as "no narrowing" rather than raising, since
+        # run() signature already constrains the type at the public API level.
+        return None
 
     invalid = [n for n in sel if n not in graph.outputs]
     if invalid:
